@@ -6,6 +6,7 @@ package main
 import (
 	"fmt"
 	"go/ast"
+	"go/constant"
 	"go/token"
 	"go/types"
 	"regexp"
@@ -71,6 +72,7 @@ func checkC11(ctx *Ctx, r *Report) {
 	c05OpenAPIMappingNames(ctx, r)
 	c11ThirdRound(ctx, r)
 	c11FourthRound(ctx, r)
+	c11FifthRound(ctx, r)
 	c02PythonMethodNamesEscaped(ctx, r)
 	// Python keeps an empty optional collection (`is not None`), Go's bare `omitempty` drops it
 	c01OmitEmptyOnCollections(ctx, r)
@@ -2648,4 +2650,157 @@ func c01DefinitionIdentity(ctx *Ctx, r *Report) {
 	r.Count("definition registries of the JSON Schema front-end", 1)
 	r.Check(compares, "frontier/definition-identity-by-location", "jsonschema.declareDefinition identifies a schema by its location", fd.Pos(), "the location of the schema is compared with the one recorded under the name",
 		"a name already declared is taken for the same definition whatever it points to: `#/definitions/Folder/properties/id` (a string) and `#/definitions/User/properties/id` (an integer) become one type `Id` — the accepted document {\"folderId\":\"f-1\",\"userId\":7} can not be decoded by either Go decoder")
+}
+
+// c11FifthRound — fourth hunt of the Python wire format:
+//   - the class of an enum is called formatObjectName(name) everywhere, also where a constant reference designates one of
+//     its members (`pet_kind & "cat"` → `PetKind.CAT`);
+//   - whatever is written between `"""` goes through escapeDocstring: a backslash or a triple quote in a comment of the
+//     schema otherwise makes the whole module a syntax error;
+//   - the constructor reads None as "not given" and sets the default: from_json puts an explicit null back for the
+//     nullable properties that have a default.
+func c11FifthRound(ctx *Ctx, r *Report) {
+	p := ctx.Pkg("internal/jennies/python")
+	if p == nil {
+		r.Undecided("anchor lost: internal/jennies/python")
+		return
+	}
+	info := p.TypesInfo
+	n := 0
+	// (a)
+	if fn := ctx.LookupMethod("internal/jennies/python", "typeFormatter", "formatEnumValue"); fn == nil {
+		r.Undecided("anchor lost: python.typeFormatter.formatEnumValue")
+	} else if fd, _ := ctx.DeclOf(fn); fd != nil {
+		k := 0
+		ast.Inspect(fd.Body, func(m ast.Node) bool {
+			c, ok := m.(*ast.CallExpr)
+			if !ok {
+				return true
+			}
+			if f := callee(info, c); f == nil || f.Name() != "Sprintf" {
+				return true
+			}
+			for _, a := range c.Args[1:] {
+				raw := false
+				if sel, ok := ast.Unparen(a).(*ast.SelectorExpr); ok && sel.Sel.Name == "Name" && namedName(info.TypeOf(sel.X)) == "Object" {
+					raw = true
+				}
+				formatted := false
+				if call, ok := ast.Unparen(a).(*ast.CallExpr); ok {
+					if f := callee(info, call); f != nil && f.Name() == "formatObjectName" {
+						formatted = true
+					}
+				}
+				if !raw && !formatted {
+					continue
+				}
+				k++
+				n++
+				r.Check(formatted, "skeleton/python-class-names-formatted", fmt.Sprintf("python.typeFormatter.formatEnumValue class name #%d", k), a.Pos(), "written through formatObjectName",
+					"formatEnumValue writes the name of the enum object as it is: for `pet_kind: \"cat\" | \"dog\"; kind: pet_kind & \"cat\"` the constructor says `pet_kind.CAT` while the class is PetKind — NameError on every document")
+			}
+			return true
+		})
+	}
+	// (b) Go side
+	esc := ctx.LookupFunc("internal/jennies/python", "escapeDocstring")
+	for _, file := range p.Syntax {
+		for _, d := range file.Decls {
+			fd, ok := d.(*ast.FuncDecl)
+			if !ok || fd.Body == nil {
+				continue
+			}
+			opens := false
+			ast.Inspect(fd.Body, func(m ast.Node) bool {
+				if lit, ok := m.(*ast.BasicLit); ok && lit.Kind == token.STRING && strings.Contains(lit.Value, `"""`) && !strings.Contains(lit.Value, "%s") {
+					opens = true
+				}
+				return true
+			})
+			if !opens {
+				continue
+			}
+			// what the function writes besides the delimiters
+			ast.Inspect(fd.Body, func(m ast.Node) bool {
+				c, ok := m.(*ast.CallExpr)
+				if !ok {
+					return true
+				}
+				if f := callee(info, c); f == nil || f.Name() != "Sprintf" || len(c.Args) < 2 {
+					return true
+				}
+				n++
+				escaped := true
+				for _, a := range c.Args[1:] {
+					call, ok := ast.Unparen(a).(*ast.CallExpr)
+					if !ok || esc == nil || callee(info, call) != esc {
+						escaped = false
+					}
+				}
+				r.Check(escaped, "skeleton/python-docstrings-escaped", "python."+fd.Name.Name+" writes into a docstring", c.Pos(), "the text goes through escapeDocstring",
+					"python."+fd.Name.Name+" pastes comment lines between `\"\"\"` as they are: a comment holding `C:\\Users\\…` is a truncated \\UXXXXXXXX escape — SyntaxError, the whole module fails to import")
+				return true
+			})
+		}
+	}
+	// (b) templates
+	if ts, err := loadTemplates(ctx, "python"); err != nil {
+		r.Undecided("templates of python: %v", err)
+	} else {
+		for _, name := range ts.names() {
+			open := false
+			var visit func(l *parse.ListNode)
+			visit = func(l *parse.ListNode) {
+				if l == nil {
+					return
+				}
+				for _, c := range l.Nodes {
+					switch x := c.(type) {
+					case *parse.TextNode:
+						if strings.Count(string(x.Text), `"""`)%2 == 1 {
+							open = !open
+						}
+					case *parse.ActionNode:
+						if open && len(x.Pipe.Decl) == 0 {
+							n++
+							r.Check(strings.Contains(x.String(), "escapeDocstring"), "skeleton/python-docstrings-escaped", "python template "+name+" writes "+x.String()+" into a docstring", token.NoPos, ts.file[name]+": the text goes through escapeDocstring",
+								ts.file[name]+": "+x.String()+" is written between `\"\"\"` as it is: a backslash or a triple quote in a comment makes the generated module a syntax error")
+						}
+					case *parse.IfNode:
+						visit(x.List)
+						visit(x.ElseList)
+					case *parse.RangeNode:
+						visit(x.List)
+						visit(x.ElseList)
+					case *parse.WithNode:
+						visit(x.List)
+						visit(x.ElseList)
+					}
+				}
+			}
+			visit(ts.trees[name].Root)
+		}
+	}
+	// (c)
+	if fn := ctx.LookupMethod("internal/jennies/python", "RawTypes", "generateFromJSONMethod"); fn == nil {
+		r.Undecided("anchor lost: python.RawTypes.generateFromJSONMethod")
+	} else if fd, _ := ctx.DeclOf(fn); fd != nil {
+		restores := false
+		ast.Inspect(fd.Body, func(m ast.Node) bool {
+			if lit, ok := m.(*ast.BasicLit); ok && lit.Kind == token.STRING {
+				if tv, ok := info.Types[lit]; ok && tv.Value != nil {
+					text := constant.StringVal(tv.Value)
+					if strings.Contains(text, "in data and data[") && strings.Contains(text, "is None") && strings.Contains(text, "= None") {
+						restores = true
+					}
+				}
+			}
+			return true
+		})
+		n++
+		r.Check(restores, "flow/python-explicit-null-kept", "python.RawTypes.generateFromJSONMethod keeps explicit nulls", fd.Pos(), "an explicit null is put back after the constructor has run",
+			"from_json hands None to the constructor for an explicit null, and the constructor takes None for `not given`: `kind: Kind | null | *\"a\"` with {\"kind\": null} comes back as {\"kind\": \"a\"} — Go writes the null back, the two SDKs disagree")
+	}
+	r.Count("hunted clauses of the Python wire format (5th round)", n)
+	r.Floor("hunted clauses of the Python wire format (5th round)", 6)
 }
